@@ -2,6 +2,7 @@
 #include "vf.h"
 #include "vf_sched.h"
 #include "source/inplace_stop_token.cpp"
+#include "source/exception.cpp"
 #include <unifex/stream_concepts.hpp>
 #include <unifex/reduce_stream.hpp>
 #include <unifex/for_each.hpp>
@@ -24,11 +25,11 @@ static unsigned char el[4]; static unsigned pmask;
 struct src_state { int pos = 0, nexts_started = 0, nexts_done = 0, cleanups = 0, cleanup_done = 0; bool next_outstanding = false; };
 static src_state S[2];
 static int consumer_done_seq, cleanup_seq[2], seqno;
-template <int K>
+template <int K, bool IntErr = false>
 struct src_stream {
   struct next_sender {
     template <template <typename...> class V, template <typename...> class T> using value_types = V<T<int>>;
-    template <template <typename...> class V> using error_types = V<std::exception_ptr>;
+    template <template <typename...> class V> using error_types = std::conditional_t<IntErr, V<int, std::exception_ptr>, V<std::exception_ptr>>;
     static constexpr bool sends_done = true;
     template <typename R> struct op { R r_;
       void start() noexcept {
@@ -37,7 +38,7 @@ struct src_stream {
         VF_ASSERT(s.cleanups == 0, "next() started after cleanup()");
         ++s.nexts_started; int p = s.pos;
         ++s.nexts_done;
-        if (p == ERR_AT) { s.pos = 100; set_error((R&&)r_, std::make_exception_ptr(int(77))); }
+        if (p == ERR_AT) { s.pos = 100; if constexpr (IntErr) set_error((R&&)r_, int(77)); else set_error((R&&)r_, std::make_exception_ptr(int(77))); }
         else if (p < N) { s.pos = p + 1; set_value((R&&)r_, int(el[p])); }
         else set_done((R&&)r_);
       } };
@@ -64,6 +65,7 @@ struct crec {
   void fin() noexcept { consumer_done_seq = ++seqno; }
   void set_value() && noexcept { ++n_val; fin(); }
   void set_value(int v) && noexcept { ++n_val; r_val = v; fin(); }
+  void set_error(int e) && noexcept { ++n_err; err_code = e; fin(); }
   void set_error(std::exception_ptr e) && noexcept { ++n_err; try { std::rethrow_exception(e); } catch (int x) { err_code = x; } catch (...) { err_code = -2; } fin(); }
   void set_done() && noexcept { ++n_done; fin(); }
   friend vf::inline_sched tag_invoke(tag_t<get_scheduler>, const crec&) noexcept { return {}; }
@@ -135,6 +137,19 @@ extern "C" void h_stop_immediately() {
   common_end();
   int acc = 0; for (int i = 0; i < effN(); ++i) acc = acc * 2 + el[i];
   if (!(ERR_AT >= 0 && ERR_AT <= N)) VF_ASSERT(n_val == 1 && r_val == acc, "stop_immediately (no stop): elements changed");
+}
+extern "C" void h_reduce_interr() {    // source fails with a non-exception_ptr error type
+  init(); run(reduce_stream(src_stream<0, true>{}, 0, [](int acc, int v) noexcept { return acc + v; }));
+  common_end();
+  if (ERR_AT >= 0 && ERR_AT <= N) VF_ASSERT(n_err == 1 && err_code == 77, "reduce_stream: typed source error not delivered unchanged");
+}
+static int throw_at;
+extern "C" void h_take_until_abandon() {   // the consumer's function throws after a good element while the trigger is still pending
+  init(); ERR_AT = -1; throw_at = (int)vf_param(1);
+  run(for_each(take_until(src_stream<0>{}, never_stream{}), [](int v) { if (fe_count++ == throw_at) throw int(5); }));
+  VF_ASSERT(n_val + n_err + n_done == 1, "consumer never completed after abandoning the stream (pending trigger not cancelled / cleanup not run)");
+  common_end();
+  if (throw_at < N) VF_ASSERT(n_err == 1 && err_code == 5, "for_each: exception thrown by the function not delivered as error");
 }
 extern "C" void h_range_single() {
   int n = (int)vf_param(0);
